@@ -351,7 +351,13 @@ def run(ctx):
     ctx.assumptions = ['reference = kv/model.py SpineModel (split -> two children of the split cell; run of adjacent *v of one spine -> one path under the first cell)',
                        'rows with too few cells are outside the property (rectangular text)',
                        'a header row after all spines are terminated starts a new set of spines and is not a surplus cell']
+    import os
+    only = os.environ.get('VERIF_C02_PASSES')     # development knob (which passes to run); the registered commands never set it
+    if only:
+        ctx.caps.append(f'only passes {only} were run (VERIF_C02_PASSES)')
     for h, c, f in lock:
+        if only and 'a' not in only:
+            break
         lockstep(ctx, h, c, seed, f)
     # beyond the bounds: twelve spines, three and four levels of nested splits, wide joins, operators in the right-most columns
     from .. import docspace as D
@@ -375,15 +381,19 @@ def run(ctx):
     hdr_paths = [['**kern'], ['**kern', '**kern'], ['**kern', '**text']] if quick else \
         [['**kern'], ['**kern', '**kern'], ['**kern', '**text'], ['**text', '**kern', '**kern'], ['**root', '**fing', '**kern']]
     for h in hdr_paths:
+        if only and 'b' not in only:
+            break
         paths(ctx, h, 4 if quick else 5, seed, 6)
     hdr_lit = [['**text'], ['**kern', '**text'], ['**dynam', '**kern', '**harm'], ['**fing', '**mxhm'], ['**kern', '**dyn']]
     jobs = [(h, i, i + 1, seed) for h in hdr_lit for i in range(len(LITERAL))]
-    ctx.pmap(_literal_job, jobs, chunksize=2)
+    if not only or 'c' in only:
+        ctx.pmap(_literal_job, jobs, chunksize=2)
     # (d) the TLA+ statement of the spine-path rules, explored by TLC; every edge of its state graph replayed against kernpy
     from .. import tlcspine
-    tl = [(['**kern'], 4), (['**kern', '**text'], 3)] if quick else [(['**kern'], 5), (['**kern', '**text'], 4), (['**text', '**kern', '**kern'], 4)]
+    tl = [(['**kern'], 4), (['**kern', '**kern'], 4)] if quick else [(['**kern'], 5), (['**kern', '**text'], 4), (['**kern', '**kern'], 4), (['**text', '**kern', '**kern'], 4)]
     ctx.bounds['tlc_model'] = [{'headers': h, 'column_cap': c, 'rows': 'every assignment of * / *^ / *v / *- to the columns that obeys the join rule, plus plain rows'} for h, c in tl]
-    tlcspine.run_pass(ctx, tl)
+    if not only or 'd' in only:
+        tlcspine.run_pass(ctx, tl)
     ctx.sample({'lock-step transition': 'state [0,0,1] --join0-1--> [0,1]', 'headers': ['**kern', '**text']})
     ctx.sample({'text': X.seq_model(['**kern', '**text'], ['d', 'S0', 'd', 'J0', 'b'], seed).text()})
     ctx.count('traces', ctx.n.get('evaluations', 0))
